@@ -5,6 +5,7 @@ import (
 	"fmt"
 	"math/rand"
 	"reflect"
+	"strings"
 
 	hessian "github.com/vogo/gohessian"
 
@@ -74,14 +75,15 @@ type c11inst struct {
 }
 
 type c11world struct {
-	tm        map[string]reflect.Type
-	nm        map[string]string
-	shared    *zoo.Inner
-	values    []interface{} // encode inputs used by history ops (share `shared` and classes with the probes)
-	wires     [][]byte      // valid decode inputs
-	garbage   [][]byte
-	encProbes []interface{}
-	decProbes [][]byte
+	tm          map[string]reflect.Type
+	nm          map[string]string
+	shared      *zoo.Inner
+	values      []interface{} // encode inputs used by history ops (share `shared` and classes with the probes)
+	wires       [][]byte      // valid decode inputs
+	garbage     [][]byte
+	encProbes   []interface{}
+	decProbes   [][]byte
+	nmExtracted map[string]string
 }
 
 func newC11World() *c11world {
@@ -97,6 +99,9 @@ func newC11World() *c11world {
 		&zoo.Bag{P01: &zoo.K01{A: 1}, P02: &zoo.K02{A: 2}, P03: &zoo.K03{A: 3}, L03: []zoo.K03{{A: 4}}},
 		"plain string",
 		&AltA{X: 1, Y: "a"},
+		&zoo.NamedHolder{One: zoo.NamedS{Key: "k", Value: 1}, Ptr: &zoo.NamedS{Key: "p", Value: 2}, Many: []zoo.NamedS{{Key: "m", Value: 3}}}, // custom class names
+		&zoo.Scalars{S: strings.Repeat("s", 2100), Bin: bytes.Repeat([]byte{5}, 9000)},                                                        // chunked string and binary
+		[]byte(strings.Repeat("b", 5000)),
 	}
 	n := &zoo.Node{Val: 9}
 	n.Next = n
@@ -109,8 +114,9 @@ func newC11World() *c11world {
 	// both Alt types are encoded under one class name (a legitimate caller-side mapping)
 	w.nm["AltA"], w.nm["AltB"] = "shared.Alt", "shared.Alt"
 	w.tm["shared.Alt"] = reflect.TypeOf(AltA{})
+	w.nmExtracted = copyNames(w.nm) // complete by construction: extracted from every value used below
 	for _, v := range w.values {
-		b, err := hessian.ToBytes(v, w.nm) // also completes the name map
+		b, err := hessian.ToBytes(v, w.nm)
 		if err == nil {
 			w.wires = append(w.wires, b)
 		}
@@ -241,7 +247,21 @@ func valueSnapshot(v interface{}) string {
 
 func (c11) Run(c Case, env *Env) Result {
 	var res Result
+	// C11 compares masked error messages too (its probes are small fixed messages without
+	// multi-entry maps, so their errors are a function of the call); a probe whose result on two
+	// FRESH instances differs is not used as an oracle.
+	errClassWithMessage = true
 	w := newC11World()
+	if !sameNames(w.nm, w.nmExtracted) {
+		// the very first encodes over the freshly extracted (complete) name map wrote to it
+		var added []string
+		for k := range w.nm {
+			if _, ok := w.nmExtracted[k]; !ok {
+				added = append(added, k)
+			}
+		}
+		env.Viol(&res, Violation{Class: "map-modified", Features: []string{"first-encode-over-extracted-map"}, Detail: fmt.Sprintf("encoding with a name map taken from ExtractTypeNameMap added entries to it: %v", added), Case: c})
+	}
 	pools := [3]hessian.Pool{hessian.NewEncoderPool(2, w.nm), hessian.NewDecoderPool(2, w.tm), hessian.NewSerializerPool(2, w.tm, w.nm)}
 	nmSnap := copyNames(w.nm)
 	tmSnap := map[string]reflect.Type{}
@@ -339,6 +359,16 @@ func (c11) Run(c Case, env *Env) Result {
 			res.Count("encode_probes", 1)
 			c1, c2 := resultClassEnc(b1, e1, p1, false), resultClassEnc(b2, e2, p2, false)
 			if c1 != c2 {
+				fresh2 := w.newInst(c.K%2, &pools)
+				var b3 []byte
+				var e3 error
+				p3, _ := Guard(func() { b3, e3 = fresh2.encode(pv) })
+				if resultClassEnc(b3, e3, p3, false) != c2 {
+					res.Count("probes_not_reproducible_on_fresh_instances", 1)
+					continue
+				}
+			}
+			if c1 != c2 {
 				viol("probe-differs:encode", fmt.Sprintf("encode probe #%d (%s): used instance -> %s (%s), fresh instance -> %s (%s)", pi, describe(pv), c1, hexClip(b1), c2, hexClip(b2)))
 			}
 		}
@@ -350,6 +380,16 @@ func (c11) Run(c Case, env *Env) Result {
 			p2, _ := Guard(func() { v2, e2 = fresh.decode(pb) })
 			res.Count("decode_probes", 1)
 			c1, c2 := resultClassDec(v1, e1, p1), resultClassDec(v2, e2, p2)
+			if c1 != c2 {
+				fresh2 := w.newInst(c.K%2, &pools)
+				var v3 interface{}
+				var e3 error
+				p3, _ := Guard(func() { v3, e3 = fresh2.decode(pb) })
+				if resultClassDec(v3, e3, p3) != c2 {
+					res.Count("probes_not_reproducible_on_fresh_instances", 1)
+					continue
+				}
+			}
 			if c1 != c2 {
 				viol("probe-differs:decode", fmt.Sprintf("decode probe #%d (%x): used instance -> %s, fresh instance -> %s", pi, pb, c1, c2))
 			}
